@@ -232,10 +232,67 @@ Fixed(ed, lines, t) ==
          IN IF Proj(e1c) = Proj(e1) THEN <<step>> \o Fixed(e1, lines, t + 1)
             ELSE <<step @@ [alt |-> Proj(e1c), wb |-> IF HasWB(e1.kwd) \/ HasWB(ed.kwd) \/ \E i \in 1..Len(cs) : CmdWB(cs[i]) THEN 1 ELSE 0]>>
 
+
+(* ---- exhaustive short scripts (profile "exh") ------------------------------------------------------------------------------
+   Every sequence of EXHD prompt lines over the fixed command list ExhCmds, from a fixed three-line buffer: sequence number k
+   (EXHLO <= k < EXHHI) in base Len(ExhCmds).  Addresses in and out of range, marks, registers, undo / redo after every kind
+   of change, text commands with empty and non-empty text, substitute, global, read, filter. *)
+ExA(b, n, offs) == [a |-> [b |-> b, n |-> n, m |-> 0, re |-> <<>>, offs |-> offs], sep |-> ""]
+ExL1(b, n) == <<ExA(b, n, <<>>)>>
+ExL2(b1, n1, sep, b2, n2) == <<[ExA(b1, n1, <<>>) EXCEPT !.sep = sep], ExA(b2, n2, <<>>)>>
+ExMark == <<[a |-> [b |-> "mark", n |-> 0, m |-> 97, re |-> <<>>, offs |-> <<>>], sep |-> ""]>>
+ExhCmds == <<
+    <<[k |-> "d", loc |-> <<>>, reg |-> 0]>>,
+    <<[k |-> "d", loc |-> ExL1("num", 1), reg |-> 97]>>,
+    <<[k |-> "d", loc |-> ExL2("num", 2, ",", "last", 0), reg |-> 65]>>,
+    <<[k |-> "d", loc |-> ExL1("num", 4), reg |-> 0]>>,
+    <<[k |-> "a", loc |-> ExL1("num", 0), txt |-> << <<120>> >>]>>,
+    <<[k |-> "a", loc |-> <<>>, txt |-> << <<97>>, <<233, 98>> >>]>>,
+    <<[k |-> "i", loc |-> ExL1("num", 2), txt |-> << <<>> >>]>>,
+    <<[k |-> "c", loc |-> ExL1("num", 1), txt |-> <<>>]>>,
+    <<[k |-> "c", loc |-> <<[ExA("dot", 0, <<>>) EXCEPT !.sep = ","], ExA("none", 0, <<1>>)>>, txt |-> << <<97, 32, 97>> >>]>>,
+    <<[k |-> "y", loc |-> ExL2("num", 1, ",", "num", 2), reg |-> 97]>>,
+    <<[k |-> "pu", loc |-> <<>>, reg |-> 97]>>,
+    <<[k |-> "pu", loc |-> ExL1("num", 0), reg |-> 0]>>,
+    <<[k |-> "pu", loc |-> ExL1("last", 0), reg |-> 97]>>,
+    <<[k |-> "k", loc |-> ExL1("num", 2), m |-> 97]>>,
+    <<[k |-> "d", loc |-> ExMark, reg |-> 0]>>,
+    <<[k |-> "p", loc |-> <<[a |-> [b |-> "mark", n |-> 0, m |-> 97, re |-> <<>>, offs |-> <<>>], sep |-> ","], ExA("last", 0, <<>>)>>]>>,
+    <<[k |-> "u"]>>,
+    <<[k |-> "redo"]>>,
+    <<[k |-> "null", loc |-> ExL1("num", 2)]>>,
+    <<[k |-> "null", loc |-> <<ExA("none", 0, <<1>>)>>]>>,
+    <<[k |-> "=", loc |-> ExL1("dot", 0)]>>,
+    <<[k |-> "p", loc |-> <<[ExA("num", 3, <<>>) EXCEPT !.sep = ";"], ExA("none", 0, <<1>>)>>]>>,
+    <<[k |-> "p", loc |-> PctLoc]>>,
+    <<[k |-> "s", loc |-> <<>>, re |-> <<97>>, rep |-> <<88>>, g |-> TRUE]>>,
+    <<[k |-> "s", loc |-> PctLoc, re |-> <<94>>, rep |-> <<45>>, g |-> FALSE]>>,
+    <<[k |-> "g", loc |-> <<>>, re |-> <<97>>, cmds |-> <<[k |-> "d", loc |-> <<>>, reg |-> 0]>>]>>,
+    <<[k |-> "v", loc |-> <<>>, re |-> <<98>>, cmds |-> <<[k |-> "s", loc |-> <<>>, re |-> <<97>>, rep |-> <<98>>, g |-> FALSE]>>]>>,
+    <<[k |-> "!", loc |-> ExL2("num", 1, ",", "num", 2)]>>,
+    <<[k |-> "r", loc |-> <<>>, name |-> <<102, 49>>, file |-> FilePool[1].file]>>,
+    <<[k |-> "d", loc |-> <<>>, reg |-> 0], [k |-> "u"]>>,
+    <<[k |-> "a", loc |-> ExL1("last", 0), txt |-> << <<98>> >>], [k |-> "d", loc |-> ExL1("num", 1), reg |-> 0]>>
+  >>
+ExhD == EnvN("EXHD", 2)
+RECURSIVE ExhSeq(_, _)
+ExhSeq(k, d) == IF d = 0 THEN <<>> ELSE ExhSeq(k \div Len(ExhCmds), d - 1) \o <<ExhCmds[(k % Len(ExhCmds)) + 1]>>
+ExhInit == <<[k |-> "a", loc |-> <<>>, txt |-> << <<97, 32, 98>>, <<97, 98>>, <<98>> >>]>>
+RECURSIVE ExhSteps(_, _, _)
+ExhSteps(ed, lines, t) ==
+    IF t > Len(lines) THEN <<>>
+    ELSE LET cs == lines[t]  e1 == ExLine(ed, cs) IN
+         <<[typed |-> Typed(cs, e1), kinds |-> [i \in 1..Len(cs) |-> cs[i].k], exp |-> Proj(e1), thm |-> IF Thm(ed, cs, e1) THEN 1 ELSE 0]>>
+         \o ExhSteps(e1, lines, t + 1)
+ExhTable == [k \in 1..(EnvN("EXHHI", 1) - EnvN("EXHLO", 0)) |->
+                [seed |-> 0 - (EnvN("EXHLO", 0) + k), profile |-> "exh",
+                 steps |-> ExhSteps(NewEd(RegNames, {97, 98}), <<ExhInit>> \o ExhSeq(EnvN("EXHLO", 0) + k - 1, ExhD), 1)]]
+
 Seed0 == EnvN("SEED0", 1)
 NScripts == EnvN("NSCRIPTS", 4)
 NSteps == EnvN("NSTEPS", 20)
-Table == IF Profile = "corpus"
+Table == IF Profile = "exh" THEN ExhTable
+         ELSE IF Profile = "corpus"
          THEN [k \in 1..Len(Corpus) |-> [seed |-> -k, profile |-> "corpus", steps |-> Fixed(NewEd(RegNames, {97, 98}), Corpus[k], 1)]]
          ELSE [k \in 1..NScripts |-> [seed |-> Seed0 + k - 1, profile |-> Profile,
                                        steps |-> Script(NewEd(RegNames, {97, 98}), Seed0 + k - 1, 1, NSteps)]]
